@@ -28,8 +28,11 @@ TRUSTED = ["harness/c18.cpp and the digest/line protocol (vh.hpp, Proto.lean)",
 
 T8 = ["i8", "u8", "si8", "su8"]
 BITS = {"i8": (True, 8), "u8": (False, 8), "i16": (True, 16), "u16": (False, 16), "i32": (True, 32), "u32": (False, 32),
-        "i64": (True, 64), "u64": (False, 64), "si8": (True, 8), "su8": (False, 8), "si32": (True, 32), "su32": (False, 32)}
-WIDE = ["i16", "u16", "i32", "u32", "i64", "u64", "si32", "su32"]
+        "i64": (True, 64), "u64": (False, 64), "si8": (True, 8), "su8": (False, 8), "si32": (True, 32), "su32": (False, 32),
+        "si16": (True, 16), "su16": (False, 16), "si64": (True, 64), "su64": (False, 64)}
+WIDE = ["i16", "u16", "i32", "u32", "i64", "u64", "si32", "su32", "si16", "su16", "si64", "su64"]
+I64_MAX = (1 << 63) - 1
+I64_MIN = -(1 << 63)
 ENUMS = {1: 32, 2: 8, 3: 32, 4: 8, 5: 16, 6: 32, 7: 64, 8: 16, 9: 8}
 
 
@@ -44,24 +47,32 @@ def nontrivial(op, result):
     return not result.startswith("n=0 ")
 
 
+DIGESTS = {"irs": "ir", "iits": "iit", "itris": "itri"}
+
+
 def weight(op):
-    if op.startswith("irs "):
+    if op.split(" ", 1)[0] in DIGESTS:
         return 1 << BITS[op.split()[1]][1]
     return 1
 
 
 def refine(op):
     t = op.split()
-    if t[0] == "irs":
+    if t[0] in DIGESTS:
         lo, hi = lo_hi(t[1])
-        return [f"ir {t[1]} {t[2]} {e}" for e in range(lo, hi + 1)]
+        return [f"{DIGESTS[t[0]]} {t[1]} {t[2]} {e}" for e in range(lo, hi + 1)]
     return None
 
 
 def equivalent(op, impl, model):
-    # `irub`: the real size() call where end_ - begin_ overflows int/long: UBSan's report is the model's fault
-    if op.startswith("irub ") and model == "signed-overflow":
-        return impl.startswith("CRASH(") and "overflow" in impl
+    # undefined behaviour really executed: UBSan's report (the harness dies on that line) is the model's fault.
+    #  irub: size() where end_ - begin_ overflows int/long;  cycl: it + k / it - k overflowing ptrdiff_t;
+    #  sp: a spiral range leaving the coordinate type;  cycx: advance on an empty boundary (% 0)
+    kind = op.split(" ", 1)[0]
+    if kind in ("irub", "cycl", "sp") and model == "signed-overflow":
+        return impl.startswith("CRASH(") and ("overflow" in impl or "cannot be represented" in impl)
+    if kind == "cycx" and (model == "div-zero" or model.endswith(",div-zero")):
+        return impl.startswith("CRASH(") and "division by zero" in impl
     return False
 
 
@@ -251,6 +262,181 @@ def batches(rng, tier):
 
     # 10. math::int_range_count
     yield Batch("static-int-range-count", [f"mirc {n}" for n in (0, 1, 2, 3, 5, 8, 16)], exhaustive=True, note="math::int_range_count<N>")
+
+    # 11. int_iterator used directly: == != (all pairs, same object), *, it++, member / free / self swap
+    for ty in T8:
+        lo, hi = lo_hi(ty)
+        yield Batch(f"int-iterator-all-pairs-{ty}", [f"iits {ty} {a}" for a in range(lo, hi + 1)], exhaustive=True,
+                    note=f"int_iterator<{ty}>: == != * it++ swap for all 65536 pairs of values")
+    ops = []
+    for ty in WIDE:
+        lo, hi = lo_hi(ty)
+        small = sorted({lo, lo + 1, hi - 1, hi, 0, 1, hi // 2, lo // 2 if lo < 0 else 2})
+        for a in small:
+            for b in small:
+                ops.append(f"iit {ty} {a} {b}")
+    yield Batch("int-iterator-wide", ops, exhaustive=True, note="int_iterator over 16/32/64-bit and strong-typedef types: all pairs of the limits, 0, 1, the middle")
+
+    # 12. iterator::range over int_iterators (no clamp: an inverted pair runs through the wrap-around of narrow / unsigned types)
+    for ty in ("i8", "u8", "su8"):
+        lo, hi = lo_hi(ty)
+        yield Batch(f"iterator-range-of-int-iterators-{ty}", [f"itris {ty} {b}" for b in range(lo, hi + 1)], exhaustive=True,
+                    note=f"iterator::make_range(int_iterator<{ty}>(b), int_iterator<{ty}>(e)) for all 65536 pairs")
+    ops = []
+    for ty in WIDE:
+        lat = lattice(ty)
+        for b in lat:
+            for e in lat:
+                if e >= b or not (BITS[ty][0] and BITS[ty][1] >= 32):
+                    ops.append(f"itri {ty} {b} {e}")
+    yield Batch("iterator-range-of-int-iterators-wide", ops, note="the same for the boundary lattice of the wider types (inverted pairs only where ++ wraps)")
+
+    # 13. enum_::iterator used directly and enum_::range constructed directly from two size_type values
+    ops = []
+    for n, w in list(ENUMS.items()) + [(256, 8)]:
+        top = min(n, (1 << w) - 1)
+        vals = range(top + 1) if n <= 9 else [0, 1, 2, 127, 128, 254, 255]
+        for a in vals:
+            for b in vals:
+                ops.append(f"eit {n} {w} {a} {b}")
+                if a <= b or n <= 4:
+                    ops.append(f"erd {n} {w} {a} {b}")
+    yield Batch("enum-iterator-all-pairs", ops, exhaustive=True,
+                note="enum_::iterator: == != * it++ swap for all pairs of positions 0..n; enum_::range(b, e) for all b <= e <= n")
+
+    # 14. cyclic iterator, every public member on pairs of iterators: positions anywhere in the container (inside, at the end
+    #     of / outside the boundary), empty boundaries, different boundaries, the same object on both sides
+    ops = []
+    L = 4
+    for f1 in range(L + 1):
+        for s1 in range(f1, L + 1):
+            for i in range(L + 1):
+                for f2 in range(L + 1):
+                    for s2 in range(f2, L + 1):
+                        for j in range(L + 1):
+                            ops.append(f"cycp {L} {f1} {s1} {i} {f2} {s2} {j}")
+    L = 7
+    for f in range(L + 1):
+        for s_ in range(f, L + 1):
+            for i in range(L + 1):
+                for j in range(L + 1):
+                    ops.append(f"cycp {L} {f} {s_} {i} {f} {s_} {j}")
+    yield Batch("cyclic-pairs-all", ops, exhaustive=True,
+                note="container of 4: every (boundary, position) x (boundary, position); container of 7: every boundary x every two positions: "
+                     "== != < > <= >= a-b, self comparison, get, get_boundary, ->, swap (member, free, self), copy construction / assignment")
+
+    # 15. walks from arbitrary positions (outside / at the end of the boundary, empty boundary)
+    ops = []
+    L = 7
+    for f in range(1, L):
+        for s_ in range(f, L):
+            for i in range(1, L):
+                for o in "+-pm":
+                    ops.append(f"cycx v {L} {f} {s_} {i} {o}")
+                    ops.append(f"cycx l {L} {f} {s_} {i} {o}")
+                if f < s_:
+                    for k in range(-4, 5):
+                        for o in "asi":
+                            ops.append(f"cycx v {L} {f} {s_} {i} {o}{k}")
+    L = 8
+    for f in range(2, L - 1):
+        for s_ in range(f, L - 1):
+            for i in range(2, L - 1):
+                for o1 in "+-pm":
+                    for o2 in "+-pm":
+                        ops.append(f"cycx {'v' if (f + s_ + i) % 2 else 'l'} {L} {f} {s_} {i} {o1} {o2}")
+                if f < s_:
+                    for k in (-3, 0, 1, 5):
+                        ops.append(f"cycx v {L} {f} {s_} {i} a{k} +")
+                        ops.append(f"cycx v {L} {f} {s_} {i} - s{k}")
+    r = rng.fork("cycx")
+    for _ in range(2000 if thorough else 300):
+        n = r.range(3, 6)
+        L = r.range(2 * n + 1, 2 * n + 6)
+        f = r.range(n, L - n)
+        s_ = r.range(f, L - n)
+        i = r.range(n, L - n)
+        kind = r.choice(["v", "l"])
+        steps = []
+        for _ in range(n):
+            if kind == "v" and f < s_ and r.below(3) == 0:
+                steps.append(r.choice(["a", "s", "i"]) + str(r.range(-9, 9)))
+            else:
+                steps.append(r.choice(["+", "-", "p", "m"]))
+        ops.append(f"cycx {kind} {L} {f} {s_} {i} " + " ".join(steps))
+    yield Batch("cyclic-walks-from-anywhere", ops, exhaustive=True,
+                note="every boundary f <= s (also empty) and every start position of a container of 7 / 8: every single operation, every two-step "
+                     "sequence of ++ -- it++ it--, += -= [] from outside; random longer walks")
+    yield Batch("cyclic-empty-boundary-advance", ["cycx v 8 3 3 3 a2", "cycx v 8 4 4 2 + s1", "cycx v 8 2 2 5 i0"],
+                note="advance on an empty boundary divides by zero (UBSan's report = the model's div-zero)")
+
+    # 16. it + k / it - k in the arithmetic of ptrdiff_t, k up to the limits
+    ops = []
+    for ln in (1, 2, 3, 5, 7):
+        for f in (0, 2):
+            for off in sorted({0, 1, ln - 1, ln // 2}):
+                if off >= ln:
+                    continue
+                ks = {I64_MAX - off, I64_MAX - off - 1, I64_MIN + 1, -I64_MAX, I64_MIN + ln, 1 << 31, (1 << 31) - 1, -(1 << 31), -(1 << 31) - 1, 1 << 32, (1 << 32) + 1,
+                      -(1 << 32), 1 << 62, -(1 << 62), (1 << 33) * ln, (1 << 33) * ln + 1, -(1 << 33) * ln - 1, 10 ** 18, -10 ** 18 + 7, 0, 1, -1}
+                for k in sorted(ks):
+                    ops.append(f"cycl {f + ln + 1} {f} {f + ln} {f + off} + {k}")
+                    ops.append(f"cycl {f + ln + 1} {f} {f + ln} {f + off} - {-k}")
+                if off == 0:
+                    ops.append(f"cycl {f + ln + 1} {f} {f + ln} {f} + {I64_MIN}")
+    r = rng.fork("cycl")
+    for _ in range(1500 if thorough else 300):
+        ln = r.range(1, 9)
+        f = r.below(3)
+        off = r.below(ln)
+        k = r.range(I64_MIN + 1, I64_MAX - off)
+        ops.append(f"cycl {f + ln + 1} {f} {f + ln} {f + off} {r.choice(['+', '-'])} {k if r.below(2) else -k}")
+    yield Batch("cyclic-advance-64bit", ops, note="advance by step counts up to the limits of ptrdiff_t (no intermediate overflow): + += k+it and - -=")
+    yield Batch("cyclic-advance-overflow", [f"cycl 5 1 4 2 + {I64_MAX}", f"cycl 5 1 4 1 - {I64_MIN}", f"cycl 4 0 3 2 + {I64_MAX - 1}"],
+                note="distance(first, it) + n overflows / -n overflows: undefined, UBSan's report = the model's signed-overflow")
+
+    # 17. default constructor, assignment
+    ops = [f"cycd {k} {L} {i} {f} {s_}" for k in "vl" for L in (0, 3) for f in range(L + 1) for s_ in range(f, L + 1) for i in range(L + 1)]
+    yield Batch("cyclic-default-ctor", ops, exhaustive=True, note="cyclic_iterator(): value-initialised iterator and boundary; assignment from a real iterator")
+
+    # 18. spiral_iterator used directly
+    r = rng.fork("spi")
+    ops = []
+    for ty, big in (("i32", 2 ** 31 - 1 - 20000), ("i64", 2 ** 63 - 1 - 20000)):
+        origins = [(0, 0), (3, -4), (big, -big), (-big, big), (r.range(-big, big), r.range(-big, big))]
+        for (x, y) in origins:
+            for d in range(0, 7):
+                for n in sorted({0, 1, 2, 2 * d * (d + 1), 2 * d * (d + 1) + 1, 2 * d * (d + 1) + 4, 100}):
+                    ops.append(f"spi {ty} {x} {y} {d} {n}")
+            ops.append(f"spi {ty} {x} {y} -2 30")
+            ops.append(f"spi {ty} {x} {y} 9 300")
+    yield Batch("spiral-iterator-direct", ops, exhaustive=True,
+                note="spiral_iterator(pos, d): n steps alternating ++it / it++ (also past end()), the step at which it == end(), == with another max_dist, swap")
+
+    # 19. spiral ranges touching the limits of the coordinate type: the box of radius d + 1 around the origin must fit
+    ops = []
+    for ty in ("i32", "i64"):
+        lo, hi = lo_hi(ty)
+        for d in (0, 1, 2, 5):
+            m = d + 1
+            for (x, y) in ((hi - m, 0), (lo + m, 0), (0, hi - m), (0, lo + m), (hi - m, hi - m), (lo + m, lo + m), (hi - m, lo + m), (lo + m, hi - m),
+                           (hi - m - 1, lo + m + 1)):
+                ops.append(f"sp {ty} {x} {y} {d}")
+    yield Batch("spiral-at-type-limits", ops, exhaustive=True, note="origins exactly d + 1 away from the limits of int / long: the whole walk (incl. the step onto end()) fits")
+    yield Batch("spiral-overflow", ["sp i32 2147483647 0 1", "sp i32 0 -2147483647 1", "sp i64 -9223372036854775808 5 0", "sp i32 3 2147483646 1",
+                                    "sp i64 9223372036854775805 0 2"],
+                note="origins closer than d + 1 to a limit: end() or a step overflows int / long (undefined; UBSan's report = the model's signed-overflow)")
+
+    # 20. iterator::range comparison, begin(), end()
+    ops = []
+    for kind in ("v", "l"):
+        for L in (0, 1, 4):
+            for i in range(L + 1):
+                for j in range(i, L + 1):
+                    for k in range(L + 1):
+                        for m in range(k, L + 1):
+                            ops.append(f"itrc {kind} {L} {i} {j} {k} {m}")
+    yield Batch("iterator-range-comparison", ops, exhaustive=True, note="operator== / != of every two sub-ranges of containers of length 0, 1, 4")
 
 
 MANIFEST = {
